@@ -168,6 +168,7 @@ type run = {
   mutable limbo : (icall * bool) list;   (* calls that panicked: their blocks stay touched *)
   mutable iheld : (int * int) list;      (* blocks held by the client, from the implementation's results *)
   mutable offline : (int * int) list;    (* C04/C10 view: trees whose offline returned ok and no online has returned ok since *)
+  mutable murky : int list;              (* trees that received a free while offline: the freed frames are allocatable again *)
   mutable off15 : (int * int) list;      (* C15 view: (tree, event counter when its offline call returned); cleared when an online STARTS *)
   mutable clock : int;                   (* counts CALL / S / RET lines *)
   mutable run_panics : int;
@@ -191,7 +192,7 @@ type run = {
 let r =
   { id = ""; scenario = ""; mode = ""; cfg = ""; g = { hord = nat_of_int 9; tlog = nat_of_int 2 };
     pol = (fun _ _ _ -> PInvalid); polname = ""; classes = []; dflt = 0; hf = 512; tf = 2048; thuge = 4; nframes = 0; nthreads = 0;
-    ms = None; diverged = false; cur = [||]; started = [||]; sawmark = [||]; firststep = [||]; limbo = []; iheld = []; offline = []; off15 = []; clock = 0; run_panics = 0;
+    ms = None; diverged = false; cur = [||]; started = [||]; sawmark = [||]; firststep = [||]; limbo = []; iheld = []; offline = []; murky = []; off15 = []; clock = 0; run_panics = 0;
     post_drained = false; post_stats = None; last_stats = None; pending_tstats = None; pending_validate = None; post_tstats = None; post_validate = None; end_dump = None; msgs = [];
     sched = "?"; tids = Buffer.create 64; nontrivial = false; prev = -1; nsteps = 0; active = false }
 
@@ -378,7 +379,12 @@ let account ctx call impl started =
   | IChange (Some i, _, _, _, "offline") ->
       if impl = "ok" then begin
         r.offline <- (i, r.clock) :: List.remove_assoc i r.offline;
-        r.off15 <- (i, r.clock) :: List.remove_assoc i r.off15
+        (* a free into the tree that is in flight may land after the offline: its frames stay allocatable *)
+        let racing_put = Array.exists (function Some (IPut (f, _, _, _)) -> f / r.tf = i | _ -> false) r.cur in
+        if racing_put then begin
+          if not (List.mem i r.murky) then r.murky <- i :: r.murky
+        end
+        else r.off15 <- (i, r.clock) :: List.remove_assoc i r.off15
       end
   | IChange (Some i, _, _, _, "online") -> if impl = "ok" then r.offline <- List.remove_assoc i r.offline
   | _ -> ()
@@ -386,6 +392,12 @@ let account ctx call impl started =
 let start_call ctx call =
   match call with
   | IPut (f, o, _, _) ->
+      (* a free into a tree that is offline makes the freed frames allocatable again (not covered by C15 / C10's "offline") *)
+      (let t = f / r.tf in
+       if List.mem_assoc t r.offline || List.mem_assoc t r.off15 then begin
+         r.off15 <- List.remove_assoc t r.off15;
+         if not (List.mem t r.murky) then r.murky <- t :: r.murky
+       end);
       if not (take_block (f, o)) then note "CORR" "[scenario]" (Printf.sprintf "%s frees a block that is not held: %s" ctx (show_icall call))
   | IChange (Some i, _, _, _, "online") -> r.off15 <- List.remove_assoc i r.off15
   | IChange (None, _, _, _, op) when op <> "-" -> note "CORR" "[scenario]" "online/offline by search is not tracked by the oracles"
@@ -651,6 +663,7 @@ let check_probe call impl =
           if !free >= 0 then
             oracle "[C10]" (Printf.sprintf "after a drain %s fails with out-of-memory although frame %d is free" (show_icall call) !free)
         end
+    | IGet (Some f, _, _, _) when List.mem (f / r.tf) r.murky -> ()
     | IGet (Some f, o, _, _) ->
         let held = held_frames () in
         let ok = ref (not (is_offline (f / r.tf))) in
@@ -875,7 +888,7 @@ let do_solo tokens =
 
 let tag_of_hfail text =
   if contains text "overlap" || contains text "misaligned" || contains text "out of range" then "[C01]"
-  else if contains text "solo" then "[C21]"
+  else if contains text "solo" || contains text "step limit" then "[C21]"
   else if contains text "scenario" then "[scenario]"
   else "[C03]"
 
@@ -897,6 +910,7 @@ let suite file keys =
           r.iheld <- [];
           r.offline <- [];
           r.off15 <- [];
+          r.murky <- [];
           r.clock <- 0;
           r.run_panics <- 0;
           r.post_drained <- false;
